@@ -106,10 +106,11 @@ var counterNames = []string{"filter_plain", "filter_expensive", "filter_batch", 
 // caseEnv travels in the context of every Execute call: the list the
 // paginated resolvers return, the batch-with-fallback flags, call counters.
 type caseEnv struct {
-	itemsI          []ItemI
-	itemsS          []ItemS
-	filterBatchFlag bool
-	sortBatchFlag   bool
+	itemsI []ItemI
+	itemsS []ItemS
+	// the batch-with-fallback flags: not necessarily constant (see flagSource)
+	filterFlag flagSource
+	sortFlag   flagSource
 	// harness switch: while failID is non-empty every per-element filter func
 	// (plain, Expensive, fallback) returns an error for the element with that
 	// key; with failBatch the batch filter funcs do too. Only set between
@@ -117,6 +118,63 @@ type caseEnv struct {
 	failID    string
 	failBatch bool
 	calls     [nCounters]int64
+}
+
+// flagSource is a "use the batch function?" switch as an application would
+// wire it to a rollout system: its answer may change from one evaluation to
+// the next. Whatever it answers, batch function and fallback compute the same
+// value, so the page must not depend on it.
+type flagSource struct {
+	mode  int   // flagConstTrue ...
+	k     int64 // flagFlipOnce: number of evaluations before the answer flips
+	seed  uint64
+	evals int64 // atomic: evaluations so far (over the whole case)
+}
+
+const (
+	flagConstTrue = iota
+	flagConstFalse
+	flagAlternateFromFalse // false, true, false, true ...
+	flagAlternateFromTrue
+	flagRandom          // pseudo-random per evaluation
+	flagFlipOnceToTrue  // false for the first k evaluations of the case, then true
+	flagFlipOnceToFalse // true for the first k evaluations, then false
+	nFlagModes
+)
+
+var flagModeNames = []string{"const_true", "const_false", "alternate_from_false", "alternate_from_true", "random_per_call", "flip_once_to_true", "flip_once_to_false"}
+
+func (f *flagSource) eval() bool {
+	n := atomic.AddInt64(&f.evals, 1) - 1
+	switch f.mode {
+	case flagConstTrue:
+		return true
+	case flagConstFalse:
+		return false
+	case flagAlternateFromFalse:
+		return n%2 == 1
+	case flagAlternateFromTrue:
+		return n%2 == 0
+	case flagRandom:
+		x := (uint64(n) + f.seed) * 0x9E3779B97F4A7C15
+		x ^= x >> 29
+		x *= 0xBF58476D1CE4E5B9
+		return (x>>33)&1 == 1
+	case flagFlipOnceToTrue:
+		return n >= f.k
+	default:
+		return n < f.k
+	}
+}
+
+// setConst makes the flag constant (used by the failing-query histories,
+// which need a definite implementation for each of their two queries).
+func (f *flagSource) setConst(v bool) {
+	if v {
+		f.mode = flagConstTrue
+	} else {
+		f.mode = flagConstFalse
+	}
 }
 
 type envKey struct{}
@@ -175,7 +233,7 @@ func filterOpt[T item](name string, idx int, kind implKind) schemabuilder.FieldF
 		return schemabuilder.BatchFilterField(name, batchFn)
 	default:
 		return schemabuilder.BatchFilterFieldWithFallback(name, batchFn, fallback,
-			func(ctx context.Context) bool { return envOf(ctx).filterBatchFlag })
+			func(ctx context.Context) bool { return envOf(ctx).filterFlag.eval() })
 	}
 }
 
@@ -211,7 +269,7 @@ func sortOpt[T item, V any](name string, get func(Attr) V, kind implKind) schema
 		return schemabuilder.BatchSortField(name, batchFn)
 	default:
 		return schemabuilder.BatchSortFieldWithFallback(name, batchFn, fallback,
-			func(ctx context.Context) bool { return envOf(ctx).sortBatchFlag })
+			func(ctx context.Context) bool { return envOf(ctx).sortFlag.eval() })
 	}
 }
 
